@@ -226,7 +226,7 @@ fn part_ints(dense: u64) -> Stats {
 
 // (d1) every string over the numeric alphabet: token streams
 fn part_numeric_words(max: usize) -> Stats {
-    let alpha: Vec<char> = vec!['0', '1', '5', '9', '.', 'e', '+', '-', 'x'];
+    let alpha: Vec<char> = vec!['0', '1', '5', '9', '.', 'e', 'E', '+', '-', 'x'];
     let mut st = par_strings(&alpha, max, |w, st| {
         st.count("d/numeric-alphabet-strings");
         if let Ok(toks) = lex(w) {
@@ -334,6 +334,14 @@ fn renderings(x: f64) -> Vec<String> {
             out.push(format!("{}.0e{}", m, ex));
         }
     }
+    // the upper-case exponent marker (Rust's `{:E}`), unsigned and with either sign
+    let up = format!("{:E}", x);
+    out.push(up.clone());
+    if let Some((m, ex)) = up.split_once('E') {
+        if !ex.starts_with('-') {
+            out.push(format!("{}E+{}", m, ex));
+        }
+    }
     // long decimal expansions (far more digits than needed): the nearest double must still be x
     out.push(format!("{:.40e}", x));
     if x >= 1e-5 && x < 1e15 {
@@ -408,10 +416,10 @@ fn part_doubles(thorough: bool) -> Stats {
     st
 }
 
-// (e) words over a 20-character alphabet
+// (e) words over a 22-character alphabet
 fn part_words(max: usize) -> Stats {
     let alpha: Vec<char> = vec![
-        'a', 'e', 'x', 't', 'r', 'u', 'f', 'n', 'i', '_', '.', ':', '0', '1', '9', 'ä', '#', '$', '\'', 'l', 's',
+        'a', 'e', 'E', 'x', 't', 'r', 'u', 'f', 'n', 'i', '_', '.', ':', '0', '1', '9', 'ä', '#', '$', '\'', 'l', 's',
     ];
     let mut st = par_strings(&alpha, max, |w, st| {
         if w.is_empty() {
@@ -579,7 +587,7 @@ pub fn run(cfg: &Cfg) -> Report {
     Report {
         property: ID,
         level: "exploration",
-        rule: format!("(a) every text of length <= {} over a 16-character hostile alphabet, quoted by the reference escaper, alone and in 4 embeddings; (b) every raw source `\"`+w, |w| <= {} over {{\" \\ a n / *}}; (c) every integer below {} in decimal, hex (both digit cases) and with leading zeros, plus 2^k+d and 10^k+d (|d| <= 2) with embeddings; (d) every string of length <= {} over `0 1 5 9 . e + - x` (token streams) and a pool of doubles (powers of two and ten with neighbours, subnormals, rounding-hard cases) x up to 9 renderings x 12 embeddings; (e) every word of length <= {} over a 21-character alphabet; (f) scaling families: strings, identifiers, digit strings, mantissas and exponents of n characters for n in 1..20 and up to 129 / 1..40 and up to 400. Oracle: reference lexer/classifier + str::parse. Non-trivial: strings containing quote/backslash/comment characters, raw sources, integers, strings with a float token, float renderings, words classified as literals; every text is enumerated once per part", t.pick(4, 6), t.pick(6, 9), t.pick(1u64 << 14, 1 << 17), t.pick(6, 8), t.pick(3, 5)),
+        rule: format!("(a) every text of length <= {} over a 16-character hostile alphabet, quoted by the reference escaper, alone and in 4 embeddings; (b) every raw source `\"`+w, |w| <= {} over {{\" \\ a n / *}}; (c) every integer below {} in decimal, hex (both digit cases) and with leading zeros, plus 2^k+d and 10^k+d (|d| <= 2) with embeddings; (d) every string of length <= {} over `0 1 5 9 . e E + - x` (token streams) and a pool of doubles (powers of two and ten with neighbours, subnormals, rounding-hard cases) x up to 11 renderings (incl. upper-case `E`, `E+`, `E-`) x 12 embeddings; (e) every word of length <= {} over a 22-character alphabet; (f) scaling families: strings, identifiers, digit strings, mantissas and exponents of n characters for n in 1..20 and up to 129 / 1..40 and up to 400. Oracle: reference lexer/classifier + str::parse. Non-trivial: strings containing quote/backslash/comment characters, raw sources, integers, strings with a float token, float renderings, words classified as literals; every text is enumerated once per part", t.pick(4, 6), t.pick(6, 9), t.pick(1u64 << 14, 1 << 17), t.pick(6, 8), t.pick(3, 5)),
         nontrivial_set: "counter:nontrivial-distinct",
         exhaustive: true,
         bound_completed: "all listed alphabets to the stated lengths".into(),
